@@ -3,6 +3,8 @@
 #include "replay/common.h"
 using namespace asmjit;
 #define HAVE_STRUCT_FuncDetail 1
+#define HAVE_STRUCT_CallConv 1
+#define HAVE_STRUCT_Environment 1
 #define __CPROVER_havoc_object(x) ((void)0)
 static unsigned nondet_unsigned() { return 0; }
 #include "contracts/c06_abi.h"
